@@ -52,7 +52,7 @@ TEXT = {
     },
     'C13': {
         'text': 'Proof for the algebra, bounded for the vector plumbing. Field addition is proved commutative/associative with zero identity for ALL elements of the 32/64/128-bit fields; '
-                'merge_vector / add_assign_vector carry the contract "mismatch => Err and accumulator unchanged, else pointwise sum" for ANY length (Verus, extracted text); the wrappers AggregateShare::{merge,accumulate} / Poplar1FieldVec::{merge,accumulate} / Aggregator::aggregate carry it '
+                'merge_vector / add_assign_vector / AggregateShare::{merge,accumulate} / Aggregator::aggregate carry the contract "mismatch => Err and accumulator unchanged, else pointwise sum" for ANY length (Verus, extracted text); Poplar1FieldVec::{merge,accumulate} and the generic instantiations carry it '
                 'on the real code at vector length <= 3 (Kani, itemised as bounded); order/grouping/batch-split independence for any length and any partition is then a machine-checked Verus lemma over sequences.',
         'note': 'Field255 element addition is fiat-crypto (assumed). Bounded stand-ins are listed in evidence coverage.bounded[] and are not counted in obligations/discharged.',
         'technique': 'function contracts with frame conditions (Kani harnesses on the real crate) + Verus sequence lemmas over the contracts',
